@@ -57,6 +57,14 @@ CLAIMED = {
         "Behaviour over concrete page histories follows by reading and is not mechanised.",
         "Trusted: generator semantics of yield / async for.",
         "DESIGN.md 4/C07"),
+    "C08": (
+        "raise-dominance on the Python CFG + call-graph reachability + pass-order and from_gapic slot rules",
+        "Decides that _maybe_get_lro is extension-gated and rejects a missing type name before building OperationInfo, that both "
+        "names resolve relative to the service and are looked up in the union of all files' messages (two-pass loading in "
+        "API.build, order and exhaustiveness), that from_gapic receives response type and metadata type un-swapped from the "
+        "transport's own operations client, and that operations_client exists iff has_lro. Polling histories are api_core's.",
+        "Trusted: api_core operation futures.",
+        "DESIGN.md 4/C08"),
     "C09": (
         "key->field->slot tables: ast pattern matching of _get_retry_and_timeout + keyword slots of wrapped-method tables",
         "Decides the selector and first-match lookup, the service-config key to RetryInfo field table, unit conversion, the "
@@ -71,6 +79,14 @@ CLAIMED = {
         "no clock/RNG/environment/cwd/identity value is reachable from the generator; serialisers sort keys.",
         "Assumes dict / protobuf container iteration is insertion-ordered and third-party serialisers are deterministic.",
         "DESIGN.md 4/C10"),
+    "C18": (
+        "branch-wise ast pattern rules on the validator + shape/dominance rules on the inlined population block",
+        "Decides that each AIP-4235 violation (duplicate, unknown, streaming, nested/missing, non-string, required, non-UUID4) has "
+        "its own error branch over the raw YAML list and that errors raise; that the emitted block tests presence the right way "
+        "for fields with and without explicit presence, stores str(uuid.uuid4()) into the same field, is the only writer, and "
+        "dominates the call in both clients. RFC-4122 conformance of uuid4 is not claimed.",
+        "Trusted: uuid.uuid4; proto-plus `in` semantics.",
+        "DESIGN.md 4/C18"),
 }
 
 NOT_APPLICABLE = {
